@@ -750,6 +750,11 @@ def main(tier, replay=None):
             # the verified checker (Checker.tables_ok, extracted) on the model's tables: the hypothesis of
             # C05_checked_tables_give_polynomial_arithmetic_mod_f / C05_representation_bijection_and_cardinality
             nchecked += 1
+            # fg_ok: primality of p, irreducibility of f (C09 irreducible_b), order of g = q-1 (C09 brute_order): the
+            # hypothesis of C05_modulus_irreducible_when_checked / C05_generator_primitive_when_checked
+            if "P" not in mt or mt[mt.index("P") + 1] != "1":
+                chk.broke("fg_ok (verified irreducibility/primitivity checkers) rejects (p,k,f,g) of %s (f=%d g=%d) although the oracle finds f irreducible and g primitive"
+                          % (fname, fc.irred, fc.g))
             if "C" not in mt or mt[mt.index("C") + 1] != "1":
                 chk.broke("tables_ok (verified checker) rejects the tables of %s (f=%d g=%d) although the oracle finds f irreducible and g primitive"
                           % (fname, fc.irred, fc.g))
